@@ -6,8 +6,9 @@
      seq_refines    every sequential run is a run of the I/O thread of the interleaving model
      seq_no_interim no parser state with version 1.1 + Expect: 100-continue => nothing logged
      flag_only_11   the flag is set only by an HTTP/1.1 head with Expect: 100-continue
-     turn_cases / seq_wf_partial / seq_wf_run   the turn of `while data`, outside the class of F5/F6
-     F5_refuted / F5_not_wf / F6_refuted        the findings, by vm_compute *)
+     turn_cases / seq_wf_turn / seq_wf_run      the turn of `while data`: the object under
+                    construction stays well-formed (one header block per object)
+     ex_former_F5 / ex_former_F6                the pipelines of the former findings F5/F6 *)
 From Coq Require Import List NArith ZArith Bool Lia.
 From RecordUpdate Require Import RecordUpdate.
 From WV Require Import Model.ChanExpect.
@@ -317,6 +318,61 @@ Lemma is_nil_len : forall {A B} (l : list A) (l' : list B), length l = length l'
   (match l with [] => true | _ => false end) = CE.is_nil l'.
 Proof. intros A B l l' H. destruct l, l'; simpl in *; auto; discriminate. Qed.
 
+(* the end of a turn: `if self.request.completed: ...` *)
+Definition finish (c : chan) (r2 : parser) : chan :=
+  if completed r2 then
+    let c := c <| sent_continue := false |> in
+    let c :=
+      if negb (empty r2) then
+        let c := c <| requests := requests c ++ [r2] |> in
+        if (length (requests c) =? 1)%nat
+        then c <| add_task_calls := S (add_task_calls c) |> else c
+      else c in
+    c <| request := None |>
+  else c.
+
+Lemma turn_finish : forall c r1,
+  turn c r1 =
+  let c1 := c <| request := Some r1 |> in
+  if trigger c1 r1
+  then finish (c1 <| outlog := outlog c1 ++ continue_bytes |> <| sent_continue := true |>
+                  <| request := Some (r1 <| expect_continue := false |>) |>)
+              (r1 <| expect_continue := false |>)
+  else finish c1 r1.
+Proof.
+  intros. unfold turn, finish. cbv zeta.
+  destruct (trigger (c <| request := Some r1 |>) r1); [unfold send_continue; cbn|];
+    destruct c; reflexivity.
+Qed.
+
+Lemma finish_sim : forall c s r2 q2 more s' l',
+  mrel c s -> request c = Some r2 -> CE.request s = Some q2 ->
+  CE.io_complete s more = (s', l') ->
+  mrel (finish c r2) s' /\ CE.io s' = (if more then CE.IOLoop else CE.IOIdle) /\
+  CE.rlock s' = (if more then CE.rlock s else false).
+Proof.
+  intros c s r2 q2 more s' l' M Hr Hq Ec.
+  destruct M as [M1 M2 M3 (M4a & M4b & M4c & M4d) M5 M6 M7].
+  rewrite Hr, Hq in M1. destruct M1 as (Fc & Fe & Fh & Fb & Fem).
+  pose proof (CB.io_complete_spec _ _ _ _ Ec) as S.
+  destruct S as (S1 & S2 & S3 & S4 & S5 & S6 & S8 & S9 & S10 & S11).
+  split; [|split; assumption].
+  unfold finish. rewrite <- Fc, <- Fem.
+  destruct S11 as [(q & Sq & Sc & Se & Sr & Ssc & Srs & Sqd)|[(q & Sq & Sc & Se & Sr & Ssc & Srs & Sqd)|(Sc & Sr & Ssc & Srs & Sqd)]].
+  - rewrite Hq in Sq. inversion Sq; subst q. rewrite Sc, Se. cbn [negb].
+    assert (El : (length (requests c ++ [r2]) =? 1)%nat = CE.is_nil (CE.requests s)).
+    { rewrite app_length. cbn. destruct (requests c), (CE.requests s); simpl in *; try discriminate; auto.
+      rewrite Nat.add_comm. reflexivity. }
+    cbn [requests set eta_chan]. rewrite El.
+    constructor; destruct (CE.is_nil (CE.requests s)); cbn; rewrite ?Sr, ?Ssc, ?Srs, ?Sqd, ?S1, ?S2, ?S4, ?S5; auto;
+      try (rewrite !app_length; cbn; congruence).
+  - rewrite Hq in Sq. inversion Sq; subst q. rewrite Sc, Se. cbn [negb].
+    constructor; cbn; rewrite ?Sr, ?Ssc, ?Srs, ?Sqd, ?S1, ?S2, ?S4, ?S5; auto.
+  - rewrite (Sc q2 Hq).
+    constructor; cbn; rewrite ?Sr, ?Ssc, ?Srs, ?Sqd, ?S1, ?S2, ?S4, ?S5, ?Hr, ?Hq; auto.
+    unfold flags_eq; auto.
+Qed.
+
 Lemma turn_sim : forall a c s data r1 n more,
   mrel c s -> CE.io s = CE.IOLoop -> CE.rlock s = true ->
   Parser.received a (cur c) data = ROk r1 n ->
@@ -328,7 +384,7 @@ Lemma turn_sim : forall a c s data r1 n more,
     (CP.ev_asks ev = true -> version r1 = s_1_1 /\ expect_value r1 = true).
 Proof.
   intros a c s data r1 n more M Hio Hrl Hrecv.
-  destruct M as [M1 M2 M3 (M4a & M4b & M4c & M4d) M5 M6 M7].
+  pose proof M as [M1 M2 M3 (M4a & M4b & M4c & M4d) M5 M6 M7].
   set (q0 := match CE.request s with Some q => q | None => CE.fresh_req (CE.next_id s) end).
   assert (F0 : flags_eq q0 (cur c)).
   { unfold q0, cur. destruct (request c), (CE.request s); try tauto. apply flags_fresh. }
@@ -337,7 +393,6 @@ Proof.
   pose proof F1 as (Fc & Fe & Fh & Fb & Fem).
   assert (Hnil : (match requests c with [] => true | _ => false end) = CE.is_nil (CE.requests s))
     by (apply is_nil_len; assumption).
-  (* the state after the parser call, on both sides *)
   assert (Estep : CE.step s (CE.CIOParse ev more) =
     let s1 := (let s0 := s <| CE.request := Some q1 |> in
                let s0 := match CE.request s with Some _ => s0 | None => s0 <| CE.next_id := S (CE.next_id s0) |> end in
@@ -356,59 +411,51 @@ Proof.
                CE.rlock s1 = CE.rlock s).
   { unfold s1. destruct (CE.request s); destruct (CE.g_asked q1); simpl; repeat split; reflexivity. }
   destruct S1 as (T1 & T2 & T3 & T4 & T5 & T6 & T7 & T8 & T9).
-  assert (Etrig : trigger (c <| request := Some r1 |>) r1 = CE.wants_continue s1 && CE.is_nil (CE.requests s1)).
-  { unfold trigger, CE.wants_continue. rewrite T1, T2, T3. cbn [requests sent_continue set eta_chan].
+  set (c1 := c <| request := Some r1 |>).
+  assert (M1' : mrel c1 s1).
+  { constructor; unfold c1; cbn [request requests sent_continue will_close close_when_flushed outlog add_task_calls set eta_chan];
+      rewrite ?T1, ?T2, ?T3, ?T4, ?T5, ?T6, ?T7, ?T8; auto. }
+  assert (Etrig : trigger c1 r1 = CE.wants_continue s1 && CE.is_nil (CE.requests s1)).
+  { unfold trigger, CE.wants_continue, c1. rewrite T1, T2, T3. cbn [requests sent_continue set eta_chan].
     rewrite Hnil, M3, Fe, Fh.
     destruct (expect_continue r1), (headers_finished r1), (CE.is_nil (CE.requests s)), (CE.sent_continue s); reflexivity. }
-  unfold turn. rewrite Etrig.
+  rewrite turn_finish. cbv zeta. fold c1. rewrite Etrig.
   destruct (CE.wants_continue s1 && CE.is_nil (CE.requests s1)) eqn:Ew.
   - (* send_continue *)
     exists [CE.CIOParse ev more; CE.CIOSend]. split; [right; reflexivity|].
     cbn [execs fold_left]. rewrite Estep.
     match goal with |- context[CE.step ?x CE.CIOSend] => set (s2 := x) end.
-    assert (E2 : CE.step s2 CE.CIOSend =
-      Some (let s3 := s2 <| CE.outlog := CE.outlog s1 ++ [CE.TInterim (CE.rid q1) false] |> <| CE.sent_continue := true |>
-                        <| CE.request := Some (q1 <| CE.a_expect := false |> <| CE.a_completed := false |>) |> in
-            let s3 := if CE.a_completed q1 then s3 <| CE.bad := CE.rid q1 :: CE.bad s3 |> else s3 in
-            if more then s3 <| CE.io := CE.IOLoop |> else s3 <| CE.io := CE.IOIdle |> <| CE.rlock := false |>,
-            (if CE.a_completed q1 then [CE.LInterim (CE.rid q1) false; CE.LReset (CE.rid q1)]
-             else [CE.LInterim (CE.rid q1) false]) ++ [])).
-    { unfold s2. cbn [CE.step CE.io set CE.eta_state]. unfold CE.do_send. cbn [CE.request set CE.eta_state].
-      cbn [CE.a_completed CE.rid set CE.eta_areq].
-      destruct (CE.a_completed q1); unfold CE.io_complete; cbn; destruct more; reflexivity. }
-    rewrite E2. clear E2. cbv zeta.
-    unfold send_continue. cbn [completed set eta_parser].
-    split; [|split; [|split; [|assumption]]].
-    + constructor.
-      * destruct (CE.a_completed q1), more; cbn; unfold flags_eq; cbn; repeat split; auto.
-      * destruct (CE.a_completed q1), more; cbn; rewrite T2; assumption.
-      * destruct (CE.a_completed q1), more; cbn; reflexivity.
-      * destruct (CE.a_completed q1), more; cbn; rewrite ?T7, ?T8; auto.
-      * destruct (CE.a_completed q1), more; cbn; rewrite T4, M5, map_app, concat_app; cbn; rewrite ?app_nil_r; reflexivity.
-      * destruct (CE.a_completed q1), more; cbn; rewrite T5; assumption.
-      * destruct (CE.a_completed q1), more; cbn; rewrite T6; assumption.
-    + destruct (CE.a_completed q1), more; reflexivity.
-    + destruct (CE.a_completed q1), more; cbn; rewrite ?T9; auto.
+    set (q2 := q1 <| CE.a_expect := false |>).
+    set (r2 := r1 <| expect_continue := false |>).
+    assert (Eq2 : CE.request s2 = Some q2) by reflexivity.
+    cbn [CE.step]. change (CE.io s2) with (CE.IOSend more). cbv iota.
+    destruct (CE.do_send s2 false) as [s3 l3] eqn:Ed.
+    destruct (CE.io_complete s3 more) as [s4 l4] eqn:Ec.
+    pose proof (CB.do_send_spec _ _ _ _ Ed q2 Eq2) as D.
+    destruct D as (D1 & D2 & D3 & D4 & D5 & D6 & D7 & D8 & D9 & D10 & D11 & D12 & D13 & D14).
+    set (c2 := c1 <| outlog := outlog c1 ++ continue_bytes |> <| sent_continue := true |> <| request := Some r2 |>).
+    assert (U : CE.requests s2 = CE.requests s /\ CE.will_close s2 = CE.will_close s /\
+                CE.close_when_flushed s2 = CE.close_when_flushed s /\ CE.outlog s2 = CE.outlog s /\
+                CE.queued s2 = CE.queued s /\ CE.active s2 = CE.active s /\ CE.rlock s2 = CE.rlock s).
+    { change (CE.requests s2) with (CE.requests s1). change (CE.will_close s2) with (CE.will_close s1).
+      change (CE.close_when_flushed s2) with (CE.close_when_flushed s1). change (CE.outlog s2) with (CE.outlog s1).
+      change (CE.queued s2) with (CE.queued s1). change (CE.active s2) with (CE.active s1).
+      change (CE.rlock s2) with (CE.rlock s1). auto 10. }
+    destruct U as (U1 & U2 & U3 & U4 & U5 & U6 & U7).
+    assert (M2' : mrel c2 s3).
+    { constructor; unfold c2, c1; cbn [request requests sent_continue will_close close_when_flushed outlog add_task_calls set eta_chan];
+        rewrite ?D1, ?D2, ?D3, ?D8, ?D7, ?D11, ?D12, ?D13, ?U1, ?U2, ?U3, ?U4, ?U5, ?U6; auto.
+      - unfold flags_eq, q2, r2. cbn. repeat split; auto.
+      - rewrite map_app, concat_app. cbn. rewrite ?app_nil_r, <- M5. reflexivity. }
+    destruct (finish_sim c2 s3 r2 q2 more s4 l4 M2' eq_refl D13 Ec) as (R1 & R2 & R3).
+    cbn [fst]. split; [exact R1|]. split; [exact R2|]. split; [|assumption].
+    rewrite R3, D5, U7, Hrl. destruct more; reflexivity.
   - exists [CE.CIOParse ev more]. split; [left; reflexivity|].
     cbn [execs fold_left]. rewrite Estep.
     destruct (CE.io_complete s1 more) as [s' l'] eqn:Ec.
-    pose proof (CB.io_complete_spec _ _ _ _ Ec) as S.
-    destruct S as (S1 & S2 & S3 & S4 & S5 & S6 & S8 & S9 & S10 & S11).
-    cbn [requests sent_continue request add_task_calls set eta_chan].
-    rewrite <- Fc, <- Fem.
-    split; [|split; [assumption|split; [rewrite S10, T9, Hrl; destruct more; reflexivity|assumption]]].
-    destruct S11 as [(q & Sq & Sc & Se & Sr & Ssc & Srs & Sqd)|[(q & Sq & Sc & Se & Sr & Ssc & Srs & Sqd)|(Sc & Sr & Ssc & Srs & Sqd)]].
-    + rewrite T1 in Sq. inversion Sq; subst q. rewrite Sc, Se. cbn [negb].
-      assert (El : (length (requests c ++ [r1]) =? 1)%nat = CE.is_nil (CE.requests s1)).
-      { rewrite app_length, T2. cbn. destruct (requests c), (CE.requests s); simpl in *; try discriminate; auto.
-        rewrite Nat.add_comm. reflexivity. }
-      cbn [requests set eta_chan]. rewrite El.
-      constructor; destruct (CE.is_nil (CE.requests s1)); cbn; rewrite ?Sr, ?Ssc, ?Srs, ?Sqd, ?S1, ?S2, ?S4, ?S5, ?T2, ?T4, ?T5, ?T6, ?T7, ?T8; auto;
-        try (rewrite !app_length; cbn; congruence).
-    + rewrite T1 in Sq. inversion Sq; subst q. rewrite Sc, Se. cbn [negb].
-      constructor; cbn; rewrite ?Sr, ?Ssc, ?Srs, ?Sqd, ?S1, ?S2, ?S4, ?S5, ?T2, ?T4, ?T5, ?T6, ?T7, ?T8; auto.
-    + rewrite (Sc q1 T1).
-      constructor; cbn; rewrite ?Sr, ?Ssc, ?Srs, ?Sqd, ?S1, ?S2, ?S4, ?S5, ?T1, ?T2, ?T3, ?T4, ?T5, ?T6, ?T7, ?T8; auto.
+    destruct (finish_sim c1 s1 r1 q1 more s' l' M1' eq_refl T1 Ec) as (R1 & R2 & R3).
+    split; [exact R1|]. split; [exact R2|]. split; [|assumption].
+    rewrite R3, T9, Hrl. destruct more; reflexivity.
 Qed.
 
 Definition justified (rs : list parser) (sched : list CE.choice) : Prop :=
@@ -550,22 +597,34 @@ Qed.
 (* what one turn of `while data` does, by cases *)
 Theorem turn_cases : forall c r1,
   let c1 := c <| request := Some r1 |> in
-  (trigger c1 r1 = true ->
+  let r2 := r1 <| expect_continue := false |> in
+  (* the interim response is due and the request is still incomplete: it stays *)
+  (trigger c1 r1 = true -> completed r1 = false ->
      turn c r1 = c <| outlog := outlog c ++ continue_bytes |> <| sent_continue := true |>
-                   <| request := Some (r1 <| expect_continue := false |> <| completed := false |>) |>) /\
+                   <| request := Some r2 |>) /\
+  (* due, but the request was complete (or refused) at the end of its header block:
+     interim response, then queued at once, flag consumed, latch cleared *)
+  (trigger c1 r1 = true -> completed r1 = true -> empty r1 = false ->
+     requests (turn c r1) = [r2] /\ request (turn c r1) = None /\
+     sent_continue (turn c r1) = false /\ outlog (turn c r1) = outlog c ++ continue_bytes /\
+     add_task_calls (turn c r1) = S (add_task_calls c)) /\
+  (* not due: a completed request is queued as the parser produced it *)
   (trigger c1 r1 = false -> completed r1 = true -> empty r1 = false ->
      requests (turn c r1) = requests c ++ [r1] /\ request (turn c r1) = None /\
      sent_continue (turn c r1) = false /\ outlog (turn c r1) = outlog c) /\
   (trigger c1 r1 = false -> completed r1 = false ->
      turn c r1 = c <| request := Some r1 |>).
 Proof.
-  intros c r1 c1. unfold turn. fold c1. repeat split; intros.
-  - rewrite H. unfold send_continue. cbn. destruct c; reflexivity.
-  - rewrite H, H0, H1. cbn. destruct (length (requests c ++ [r1]) =? 1)%nat; reflexivity.
-  - rewrite H, H0, H1. cbn. destruct (length (requests c ++ [r1]) =? 1)%nat; reflexivity.
-  - rewrite H, H0, H1. cbn. destruct (length (requests c ++ [r1]) =? 1)%nat; reflexivity.
-  - rewrite H, H0, H1. cbn. destruct (length (requests c ++ [r1]) =? 1)%nat; reflexivity.
-  - rewrite H, H0. cbn. destruct c; reflexivity.
+  intros c r1 c1 r2. rewrite turn_finish. cbv zeta. fold c1. unfold finish.
+  assert (Hnil : trigger c1 r1 = true -> requests c = []).
+  { intros H. unfold trigger in H. destruct (ChanSeq.requests c1) eqn:E; [|rewrite andb_false_r in H; discriminate].
+    exact E. }
+  repeat split; intros.
+  all: try (rewrite (Hnil H)).
+  all: rewrite ?H; cbn [completed empty set eta_parser]; rewrite ?H0, ?H1; cbn.
+  all: try (rewrite (Hnil H)); cbn.
+  all: try (destruct (length (requests c ++ [r1]) =? 1)%nat); try reflexivity.
+  all: destruct c; reflexivity.
 Qed.
 
 (* the parser object under construction is well-formed: not completed, and once its
@@ -626,102 +685,76 @@ Proof.
       * intros E. apply W2. assumption.
 Qed.
 
-(* C19 (sequential part), outside the class of findings F5/F6: as long as
-   send_continue never fires on a request that is already completed (complete or
-   refused at the end of its header block while at the head of the line), the
-   object under construction stays well-formed -- so exactly one header block is
-   parsed into it, from an empty headers dict *)
-Theorem seq_wf_partial : forall a c data r1 n,
-  wf_cur c -> Parser.received a (cur c) data = ROk r1 n ->
-  ~ (trigger (c <| request := Some r1 |>) r1 = true /\ completed r1 = true) ->
-  wf_cur (turn c r1).
+Lemma finish_request : forall c r2,
+  (completed r2 = true -> request (finish c r2) = None) /\
+  (completed r2 = false -> finish c r2 = c).
 Proof.
-  intros a c data r1 n W H Hkf.
+  intros c r2. unfold finish. split; intros H; rewrite H; [|reflexivity].
+  destruct (negb (empty r2)); [destruct (length _ =? 1)%nat|]; reflexivity.
+Qed.
+
+(* C19 (sequential part): the object under construction stays well-formed over every
+   turn of `while data` -- so exactly one header block is parsed into it, from an
+   empty headers dict: a queued request has only its own header fields.  (Before
+   fix e3537e2 this failed for requests complete or refused at the end of their
+   header block: findings F5/F6.) *)
+Theorem seq_wf_turn : forall a c data r1 n,
+  wf_cur c -> Parser.received a (cur c) data = ROk r1 n -> wf_cur (turn c r1).
+Proof.
+  intros a c data r1 n W H.
   assert (P0 : completed (cur c) = false /\ (headers_finished (cur c) = true -> body (cur c) <> None) /\
                (headers_finished (cur c) = false -> headers (cur c) = [] /\ body (cur c) = None /\ expect_continue (cur c) = false)).
   { unfold cur. destruct (request c) as [r|] eqn:Er; [apply W; assumption|].
     split; [reflexivity|]. split; [discriminate|]. intros _. repeat split. }
   destruct P0 as (P1 & P2 & P3).
   pose proof (received_wf _ _ _ _ _ H P1 P2 P3) as R.
-  destruct (turn_cases c r1) as (T1 & T2 & T3). cbv zeta in T1, T2, T3.
+  rewrite turn_finish. cbv zeta.
   destruct (trigger (c <| request := Some r1 |>) r1) eqn:Et.
-  - rewrite (T1 eq_refl). intros r Hr. cbn in Hr. inversion Hr; subst. clear Hr.
-    assert (Ec : completed r1 = false).
-    { destruct (completed r1) eqn:E; [|reflexivity]. exfalso. apply Hkf. auto. }
-    destruct (R Ec) as (R1 & R2). cbn. split; [reflexivity|]. split; [assumption|].
-    intros E. unfold trigger in Et. rewrite E in Et. rewrite andb_false_r in Et. discriminate.
-  - destruct (completed r1) eqn:Ec.
-    + unfold turn. rewrite Et. cbn [completed]. rewrite Ec. intros r Hr.
-      destruct (negb (empty r1)); [destruct (length _ =? 1)%nat|]; cbn in Hr; discriminate.
-    + rewrite (T3 eq_refl eq_refl). intros r Hr. cbn in Hr. inversion Hr; subst.
+  - set (r2 := r1 <| expect_continue := false |>).
+    destruct (finish_request (c <| request := Some r1 |> <| outlog := outlog (c <| request := Some r1 |>) ++ continue_bytes |>
+                                <| sent_continue := true |> <| request := Some r2 |>) r2) as [F1 F2].
+    destruct (completed r1) eqn:Ec.
+    + intros r Hr. rewrite (F1 Ec) in Hr. discriminate.
+    + rewrite (F2 Ec). intros r Hr. cbn in Hr. inversion Hr; subst. clear Hr.
+      destruct (R eq_refl) as (R1 & R2). cbn. split; [assumption|]. split; [assumption|].
+      intros E. unfold trigger in Et. rewrite E in Et. rewrite andb_false_r in Et. discriminate.
+  - destruct (finish_request (c <| request := Some r1 |>) r1) as [F1 F2].
+    destruct (completed r1) eqn:Ec.
+    + intros r Hr. rewrite (F1 eq_refl) in Hr. discriminate.
+    + rewrite (F2 eq_refl). intros r Hr. cbn in Hr. inversion Hr; subst.
       destruct (R eq_refl) as (R1 & R2). auto.
 Qed.
 
 Lemma wf_cur_init : wf_cur chan_init.
 Proof. intros r H. discriminate. Qed.
 
-(* "every turn of the run satisfies P" *)
-Fixpoint loop_all (P : chan -> parser -> Prop) (fuel : nat) (a : adj) (c : chan) (data : bytes) : Prop :=
-  match fuel with
-  | O => True
-  | S f =>
-    match Parser.received a (cur c) data with
-    | ROk r1 n =>
-      P c r1 /\ (if (Z.of_nat (length data) <=? n)%Z then True
-                 else loop_all P f a (turn c r1) (skipn (Z.to_nat n) data))
-    | _ => True
-    end
-  end.
-
-Definition received_all (P : chan -> parser -> Prop) (a : adj) (c : chan) (data : bytes) : Prop :=
-  match data with
-  | [] => True
-  | _ => if will_close c || close_when_flushed c then True else loop_all P (S (length data)) a c data
-  end.
-
-Fixpoint feed_all (P : chan -> parser -> Prop) (a : adj) (c : chan) (reads : list bytes) : Prop :=
-  match reads with
-  | [] => True
-  | d :: rest =>
-    received_all P a c d /\
-    match chan_received a c d with COk c' => feed_all P a c' rest | _ => True end
-  end.
-
-(* the class of findings F5/F6: send_continue fires on a completed request *)
-Definition kf_turn (c : chan) (r1 : parser) : Prop :=
-  trigger (c <| request := Some r1 |>) r1 = true /\ completed r1 = true.
-
 Lemma loop_wf : forall fuel a c data c',
-  received_loop fuel a c data = COk c' -> wf_cur c ->
-  loop_all (fun c r1 => ~ kf_turn c r1) fuel a c data -> wf_cur c'.
+  received_loop fuel a c data = COk c' -> wf_cur c -> wf_cur c'.
 Proof.
-  induction fuel as [|f IH]; intros a c data c' H W A; [discriminate|].
-  rewrite loop_unfold in H. cbn [loop_all] in A.
+  induction fuel as [|f IH]; intros a c data c' H W; [discriminate|].
+  rewrite loop_unfold in H.
   destruct (Parser.received a (cur c) data) as [r1 n| | |] eqn:Er; try discriminate.
-  destruct A as [A1 A2].
-  pose proof (seq_wf_partial _ _ _ _ _ W Er A1) as W'.
+  pose proof (seq_wf_turn _ _ _ _ _ W Er) as W'.
   destruct (Z.of_nat (length data) <=? n)%Z.
   - inversion H; subst. assumption.
   - eapply IH; eauto.
 Qed.
 
-(* for all pipelines and all segmentations: a run without a turn of the class
-   keeps the object under construction well-formed *)
+(* for all pipelines and all segmentations *)
 Theorem seq_wf_run : forall a reads c0 c,
-  feed a c0 reads = COk c -> wf_cur c0 ->
-  feed_all (fun c r1 => ~ kf_turn c r1) a c0 reads -> wf_cur c.
+  feed a c0 reads = COk c -> wf_cur c0 -> wf_cur c.
 Proof.
-  induction reads as [|d rest IH]; intros c0 c H W A.
+  induction reads as [|d rest IH]; intros c0 c H W.
   - inversion H; subst. assumption.
-  - cbn [feed] in H. cbn [feed_all] in A. destruct A as [A1 A2].
+  - cbn [feed] in H.
     destruct (chan_received a c0 d) as [c1| | |] eqn:Ec; try discriminate.
-    apply (IH c1 c H); [|assumption].
-    unfold chan_received in Ec. unfold received_all in A1. destruct d as [|b d]; [inversion Ec; subst; assumption|].
+    apply (IH c1 c H).
+    unfold chan_received in Ec. destruct d as [|b d]; [inversion Ec; subst; assumption|].
     destruct (will_close c0 || close_when_flushed c0); [inversion Ec; subst; assumption|].
     eapply loop_wf; eauto.
 Qed.
 
-(* ---- findings F5 and F6 as refutations in the model -------------------------- *)
+(* ---- the pipelines of the former findings F5 and F6, now ------------------------ *)
 
 Definition adj_default : adj :=
   {| max_request_header_size := 262144; max_request_body_size := 1073741824;
@@ -743,34 +776,21 @@ Definition req_a_expect_big : bytes :=
    69;120;112;101;99;116;58;32;49;48;48;45;99;111;110;116;105;110;117;101;13;10;
    67;111;110;116;101;110;116;45;76;101;110;103;116;104;58;32;49;48;48;13;10;13;10].
 
-(* F5: the body-less expecting request /a gets 100 Continue, is never queued, and
-   its object swallows the head of /b: ONE request is queued for two, its path is
-   /b and it carries /a's Expect field *)
-Theorem F5_refuted : exists c,
+(* the body-less expecting request /a gets one 100 Continue and is queued; /b is a
+   request of its own, without /a's Expect field; add_task once (for /a) *)
+Example ex_former_F5 : exists c,
   feed adj_default chan_init [req_a_expect_nobody ++ req_b_plain] = COk c /\
   outlog c = continue_bytes /\
-  map path (requests c) = [[47;98]] /\
-  map (fun r => hget (headers r) s_EXPECT) (requests c) = [Some s_100_continue] /\
-  add_task_calls c = 1%nat.
+  map path (requests c) = [[47;97]; [47;98]] /\
+  map (fun r => hget (headers r) s_EXPECT) (requests c) = [Some s_100_continue; None] /\
+  add_task_calls c = 1%nat /\ request c = None /\ sent_continue c = false.
 Proof. eexists. vm_compute. repeat split. Qed.
 
-(* the same stream violates the well-formedness kept outside the class *)
-Theorem F5_not_wf : exists c,
-  feed adj_default chan_init [req_a_expect_nobody] = COk c /\ ~ wf_cur c /\
-  requests c = [] /\ outlog c = continue_bytes.
-Proof.
-  eexists. split; [vm_compute; reflexivity|]. split; [|split; reflexivity].
-  intros W. match type of W with wf_cur ?c => set (c0 := c) in * end.
-  destruct (request c0) as [r|] eqn:Er; [|vm_compute in Er; discriminate].
-  destruct (W r Er) as (_ & W2 & _). vm_compute in Er. inversion Er; subst. clear Er.
-  apply W2; reflexivity.
-Qed.
-
-(* F6: Content-Length >= max_request_body_size with Expect: 100-continue: the 413
-   is set at the end of the header block, 100 Continue is sent, completed is
-   reset, nothing is queued and the server goes on reading *)
-Theorem F6_refuted : exists c r,
+(* Content-Length >= max_request_body_size with Expect: 100-continue: 100 Continue,
+   then the request is queued with its 413 error (it is answered and the
+   connection closes); nothing is left under construction *)
+Example ex_former_F6 : exists c r,
   feed adj_small_body chan_init [req_a_expect_big] = COk c /\
-  outlog c = continue_bytes /\ requests c = [] /\ add_task_calls c = 0%nat /\
-  request c = Some r /\ error r = Some EBodyTooLarge /\ completed r = false.
+  outlog c = continue_bytes /\ requests c = [r] /\ add_task_calls c = 1%nat /\
+  request c = None /\ error r = Some EBodyTooLarge /\ completed r = true.
 Proof. eexists. eexists. vm_compute. repeat split. Qed.
